@@ -40,7 +40,7 @@ pub fn check_spec(prop: &str) -> Option<CheckSpec> {
         "C14" => base("C14", vec![st("C14", "imports", "visible-imports"), st("C14", "venv", "visible-venv")], vec!["the generator records the module file each import statement means; VIRTUAL_ENV fallback is not explored (process-global environment)"]),
         "C16" => base("C16", vec![st("C16", "plain", "deps-plain"), st("C16", "imports", "deps-imports")], vec!["the reference dependency graph resolves each dependency with the PytestModel from the depending fixture's file"]),
         "C06" => base("C06", vec![Box::new(super::scen_history::History { prop: "C06" }), Box::new(super::scen_history::History { prop: "C06L" })], vec!["the fresh twin analyses files in the order of each file's last successful analysis so that differences are due to history, not to the registration-order dependence C08 owns", "position queries inside a currently unparsable document are excluded"]),
-        "C07" => base("C07", vec![Box::new(super::scen_history::History { prop: "C07" }), Box::new(super::scen_cacherace::CacheRace), Box::new(super::scen_cacherace::ScanPressure)], vec!["eviction cannot be switched off in the cold twin, so it is checked by the filler-file metamorphic relation", "open/close and cache pressure are applied only to documents whose buffer equals the on-disk text (the statement says 'unmodified')"]),
+        "C07" => base("C07", vec![Box::new(super::scen_history::History { prop: "C07" }), Box::new(super::scen_cacherace::CacheRace), Box::new(super::scen_cacherace::ScanPressure)], vec!["eviction cannot be switched off in the cold twin, so it is checked by the filler-file metamorphic relation", "open-then-close is applied only to documents whose buffer equals the on-disk text (the statement says 'unmodified'); cache pressure meets edited, unsaved documents too"]),
         "C10" => base("C10", vec![Box::new(super::scen_scanedit::ScanEdit)], vec!["the client waits a generated number of scheduler steps (virtual time) before sending the notification; the handler then interleaves with the scan workers at DashMap lock points"]),
         "C19" => base("C19", vec![Box::new(super::scen_diag::Diag)], vec!["the history starts after the initial scan reported completion (a document opened during the scan is C10's subject)", "expected findings come from the library on a fresh twin built from the latest valid contents, the changed document analysed last"]),
         "C11" => base("C11", vec![Box::new(super::scen_chaos::Chaos { full_stack: false }), Box::new(super::scen_chaos::Chaos { full_stack: true }), Box::new(super::scen_chaos::ChaosCli)], vec!["alarms only for behaviour a conforming LSP client and a POSIX filesystem can produce (DESIGN.md §6.3); EIO-class disk errors and allocation failure are outside the simulation", "contents come from a generator of hostile layouts, not from byte-level grammar fuzzing (input generation is a different technique family)"]),
